@@ -13,6 +13,7 @@ RULE = ('seeded sequential runs (15% with -j N: the children\'s output is relaye
         'sys.stdout/sys.stderr; over the merged stdout+stderr log: tokens of non-failing tests '
         'absent, tokens of failing tests present and only inside that test\'s own region. '
         'distinct = digest of hook-site sequence + faults; non-trivial = a token was written')
+RULE += (' One seed in six: part of the output is written by a thread that existed before the test started (a worker thread doing printing jobs).')
 RULE += (' ' + 'Later additions: tests that replace, swap, wrap or close the std streams; tests that drive a nested in-process run of the runner (inner run must hand back the streams it found; the outer capture stays intact).')
 BIAS = dict(n_test_faults=[0, 1, 2, 3, 4], n_layer_faults=[0], p_buffer=0.7, p_j=0.15, p_xml=0.15,
             p_repeat=0.2, p_shuffle=0.15, v=[0, 1, 2, 3], n_writes=[1, 2, 3, 4, 6],
@@ -24,6 +25,15 @@ def gen(seed):
     spec = _ws.gen_ws(seed, ID, BIAS)
     import random
     rng = random.Random(seed ^ 0xC13)
+    if seed % 6 == 2 and not spec['opt'].get('j'):
+        # some of the tests' output is written by a thread that already existed when the test
+        # started (a layer's worker thread doing a printing job for the test): captured and
+        # attributed like the test's own writes
+        trng = random.Random(seed ^ 0x7EAD)
+        for e in spec['plan']:
+            if e.get('a') == 'write' and e.get('stream') in ('stdout', 'stderr', 'print') \
+                    and trng.random() < 0.6:
+                e['stream'] = 'thread.' + ('stderr' if e['stream'] == 'stderr' else 'stdout')
     if not spec['opt'].get('buffer') and rng.random() < 0.25:
         # without --buffer the runner must leave the std streams alone - also a wrapper that
         # a test installed for the rest of the process
